@@ -11,6 +11,7 @@ import (
 	"fmt"
 
 	"github.com/xjslang/xjs/ast"
+	"github.com/xjslang/xjs/token"
 	"xjsverif/internal/jsgen"
 	"xjsverif/internal/treegen"
 )
@@ -166,6 +167,72 @@ func c03Parsed(c *oracleCtx, src string, cfgs []string, steer bool) {
 	}
 }
 
+// c03EditAfterPrint: `x = p <op1> q <op2> r` is parsed and compiled once; then the operator of the inner binary node
+// is replaced in place (token type, literal and Operator) by one of another level, and the tree is compiled again. The
+// text must parse back to the edited tree — what a node answered when it was printed the first time must not stick.
+func c03EditAfterPrint(c *oracleCtx) {
+	ops := []struct {
+		text string
+		ty   token.Type
+	}{{"+", token.PLUS}, {"*", token.MULTIPLY}, {"<", token.LT}, {"==", token.EQ}, {"&&", token.AND}, {"||", token.OR}, {"-", token.MINUS}, {"%", token.MODULO}}
+	for _, first := range ops {
+		for _, outer := range ops {
+			for _, second := range ops {
+				if first.ty == second.ty {
+					continue
+				}
+				src := "x = p " + first.text + " q " + outer.text + " r"
+				input := map[string]any{"src": hexOf(src), "text": src, "edit": "after a first Compile the inner operator " + first.text + " is replaced in place by " + second.text}
+				guard(c, "panic", input, func() {
+					prog, errs := oaParse(src)
+					if len(errs) > 0 || len(prog.Statements) != 1 {
+						return
+					}
+					es, ok := prog.Statements[0].(*ast.ExpressionStatement)
+					if !ok {
+						return
+					}
+					as, ok := es.Expression.(*ast.AssignmentExpression)
+					if !ok {
+						return
+					}
+					top, ok := as.Value.(*ast.BinaryExpression)
+					if !ok {
+						return
+					}
+					inner, ok := top.Left.(*ast.BinaryExpression)
+					if !ok {
+						if inner, ok = top.Right.(*ast.BinaryExpression); !ok {
+							return
+						}
+					}
+					for _, cfg := range c03Cfgs {
+						_ = oaCompile(cfg, prog) // the first print
+					}
+					_ = inner.Precedence()
+					inner.Token.Type, inner.Token.Literal, inner.Operator = second.ty, second.text, second.text
+					want := treegen.Shape(prog)
+					c.count(src + "|" + second.text)
+					for _, cfg := range c03Cfgs {
+						out := oaCompile(cfg, prog)
+						back, berrs := oaParse(out)
+						if len(berrs) > 0 {
+							input["cfg"], input["output"] = cfg, oaClip(out, 300)
+							c.violation("reparse-error", "the text of the edited tree does not parse: "+oaErrText(berrs), input)
+							return
+						}
+						if got := treegen.Shape(back); got != treegen.Shape(prog) {
+							input["cfg"], input["output"] = cfg, oaClip(out, 300)
+							c.violation("tree-mismatch", "the edited tree "+want+" is printed as text that parses to another tree: "+firstDiff(treegen.Shape(prog), got), input)
+							return
+						}
+					}
+				})
+			}
+		}
+	}
+}
+
 func oracleC03(c *oracleCtx) {
 	for _, in := range c.inputs {
 		if m := recordedInput(in); m != nil {
@@ -173,7 +240,9 @@ func oracleC03(c *oracleCtx) {
 			if cfg := oaStr(m, "cfg"); cfg != "" {
 				cfgs = []string{cfg}
 			}
-			if t := oaStr(m, "tree"); t != "" {
+			if oaStr(m, "edit") != "" {
+				c03EditAfterPrint(c) // the whole (small) family: the recorded one is among them
+			} else if t := oaStr(m, "tree"); t != "" {
 				guard(c, "panic", m, func() { c03Programmatic(c, parseProgramSexp(t), cfgs, false) })
 			} else if s := oaStr(m, "src"); s != "" {
 				c.count(s)
@@ -197,6 +266,9 @@ func oracleC03(c *oracleCtx) {
 	if c.tier == "replay" {
 		return
 	}
+
+	// a tree that was printed before and is edited in place afterwards prints like a fresh tree of that shape
+	c03EditAfterPrint(c)
 
 	// exhaustive: every operator applied to leaves
 	for i, n := 0, treegen.CountExprs(2); i < n && !c.expired(); i++ {
